@@ -4,7 +4,7 @@ optional whitespace around separators and empty list elements never change what 
 
 Correspondence: the model `CpModel/Text/Scan.lean` against the REAL `ParserText` methods, op by op
 (TA `_parse_string_array`, TU `_parse_string_until_separator`, TC `_check_separators`, TN `parse_numeric`,
-TS `parse_string`).  Implementation-side oracle: spelling variants parse like the canonical spelling."""
+TS `parse_string`, TL `_parse_string_by_length`, TK cost model).  Implementation-side oracle: spelling variants parse like the canonical spelling."""
 from __future__ import print_function
 
 import itertools
@@ -21,29 +21,39 @@ RULE = ('_parse_string_array: every (separator, separator_spaces, skip_empty, ma
         'items rendered with random whitespace runs around separators and at both ends, empty elements and a trailing '
         'separator; _parse_string_until_separator: every separator list used under /repo plus tie/ordering/empty cases, '
         'may_end on/off, offsets 0..len+1, with and without separator_spaces; _check_separators: sets x min x max x offsets; '
-        'parse_numeric: digit runs incl. 4300/4301 digits; parse_string. A case is non-trivial when the input contains a '
+        'parse_numeric: digit runs incl. 4300/4301 digits; parse_string; cost model: ticks of the model against line events of the '
+        'real call on 8 scalable shapes at sizes 64..256 (thorough: ..2048). A case is non-trivial when the input contains a '
         'separator or a whitespace byte; distinct by (op, parameters, input).')
 ASSUMPTIONS = [
     'only item_class=str / fallback_class=None is driven through the scanner ops; item classes are the header layer (C18 proper)',
     'separator and separator_spaces parameters are ASCII (they are literals in /repo)',
     'CPython int() refuses more than 4300 digits (sys.int_info.default_max_str_digits)',
 ]
-TIME_LIMIT = 5.0        # seconds for one real call before it is reported as non-terminating
+TIME_LIMIT = 2.0        # seconds for one real call (inputs are a few bytes) before it is reported as non-terminating
 TU_TIME_LIMIT = 0.25    # _parse_string_until_separator called out of contract may loop forever by design of the code
+MAX_TIMEOUTS = 12       # after that many non-terminating calls the remaining real calls are not waited for
+_timeouts = [0]
 
 
 class Timeout(Exception):
     pass
 
 
-def timed(fn, limit):
-    """Run fn() under a wall-clock limit; raises Timeout if the real code does not come back."""
+def timed(fn, limit, counted=True):
+    """Run fn() under a wall-clock limit; raises Timeout if the real code does not come back.  Once MAX_TIMEOUTS
+    calls have hung (the check is failing anyway) the limit drops to 20 ms so that the run still ends."""
     def handler(signum, frame):
         raise Timeout()
+    if counted and _timeouts[0] >= MAX_TIMEOUTS:
+        limit = 0.02
     old = signal.signal(signal.SIGALRM, handler)
     signal.setitimer(signal.ITIMER_REAL, limit)
     try:
         return fn()
+    except Timeout:
+        if counted:
+            _timeouts[0] += 1
+        raise
     finally:
         signal.setitimer(signal.ITIMER_REAL, 0)
         signal.signal(signal.SIGALRM, old)
@@ -256,7 +266,7 @@ class UntilOracle(object):
             p = ParserText(data)
             return p._parse_string_until_separator(  # pylint: disable=protected-access
                 'x', case['off'], seps, str, None, bool(case['may_end']), _text(unhx(case['ws'])))
-        return timed(fn, TU_TIME_LIMIT)
+        return timed(fn, TU_TIME_LIMIT, counted=False)
 
     @classmethod
     def impl(cls, case):
@@ -400,6 +410,28 @@ class StringOracle(object):
         return []
 
 
+class ByLengthOracle(object):
+    """case {'kind':'tl','min':n,'max':None|n,'off':n,'data':hex}"""
+
+    @staticmethod
+    def lines(case):
+        return ['TL {} {} {} {}'.format(case['min'], _opt(case['max']), case['off'], case['data'])]
+
+    @staticmethod
+    def impl(case):
+        from cryptoparser.common.parse import ParserText
+
+        def fn():
+            p = ParserText(unhx(case['data']))
+            p._parsed_length = case['off']  # pylint: disable=protected-access
+            return p._parse_string_by_length('x', case['min'], case['max'], 'ascii', str)  # pylint: disable=protected-access
+        return [core.outcome(lambda: timed(fn, TIME_LIMIT), lambda r: 'OK {} {}'.format(r[1], hx(r[0].encode('latin-1'))))]
+
+    @staticmethod
+    def prop(case):
+        return []
+
+
 def small_cases(rng, tier):
     cases = []
     n = 400 if tier == 'quick' else 20000
@@ -415,6 +447,10 @@ def small_cases(rng, tier):
         digits = bytes(bytearray(rng.choice(b'0123456789') for _ in range(rng.randrange(0, 25))))
         cases.append({'kind': 'tn', 'data': hx(digits + _rand_bytes(rng, rng.randrange(0, 3), b';'))})
     for _ in range(n // 2):
+        data = _rand_bytes(rng, rng.randrange(0, 9), b';')
+        cases.append({'kind': 'tl', 'min': rng.randrange(0, 6), 'max': rng.choice([None, 0, 1, 2, 3, 8, 20]),
+                      'off': rng.randrange(0, len(data) + 1), 'data': hx(data)})
+    for _ in range(n // 2):
         value = rng.choice([b'', b'a', b'ab', b'v=spf1', b'; ', b'yes', b'no'])
         data = _rand_bytes(rng, rng.randrange(0, 4), b';') + (value if rng.random() < 0.6 else value[:-1]) + \
             _rand_bytes(rng, rng.randrange(0, 3), b';')
@@ -424,7 +460,82 @@ def small_cases(rng, tier):
     return cases
 
 
-ORACLES = {'ta': ArrayOracle, 'tu': UntilOracle, 'tc': CheckOracle, 'tn': NumericOracle, 'ts': StringOracle}
+# ------------------------------------------------------------------------------------------------
+# TK  cost model: ticks of the model against line events of the real call
+# ------------------------------------------------------------------------------------------------
+
+TICK_ALPHA, TICK_BETA = 6, 16      # 2*ticks - BETA <= line events <= ALPHA*ticks + BETA   (measured: 2.5 .. 5.6 events per tick)
+SHAPES = {
+    'one-item': lambda n: b'a' * n, 'separators': lambda n: b';' * n, 'sep-space': lambda n: b'; ' * (n // 2),
+    'items': lambda n: b'a ; ' * (n // 4), 'spaces': lambda n: b' ' * n, 'long-items': lambda n: (b'abcdefghij' * 3 + b'; ') * (n // 32),
+    'trailing-space': lambda n: b'a' + b' ' * (n - 2) + b';', 'name-values': lambda n: b'max-age=31536000; includeSubDomains ;' * (n // 37),
+}
+
+
+def line_events(data, sep, ws, skip):
+    """Number of 'line' trace events inside cryptoparser/common/parse.py during the real call."""
+    import sys
+    import cryptoparser.common.parse as parse_module
+    from cryptoparser.common.parse import ParserText
+    filename = parse_module.__file__
+    count = [0]
+
+    def local(frame, event, arg):
+        if event == 'line':
+            count[0] += 1
+        return local
+
+    def tracer(frame, event, arg):
+        return local if frame.f_code.co_filename == filename else None
+    parser = ParserText(data)
+    old = sys.gettrace()
+    sys.settrace(tracer)
+    try:
+        try:
+            parser.parse_string_array('x', _text(sep), separator_spaces=_text(ws), skip_empty=bool(skip))
+        except Exception:  # pylint: disable=broad-except
+            pass
+    finally:
+        sys.settrace(old)
+    return count[0]
+
+
+def tick_cases(tier):
+    sizes = (64, 128, 256) if tier == 'quick' else (64, 128, 256, 512, 1024, 2048)
+    cases = []
+    for name in sorted(SHAPES):
+        for n in sizes:
+            for skip in (0, 1):
+                for sep, ws in ((b';', b' '), (b',', b' \t'), (b';', b'')):
+                    data = SHAPES[name](n).replace(b';', sep)
+                    cases.append({'kind': 'tk', 'shape': name, 'n': n, 'sep': hx(sep), 'ws': hx(ws), 'skip': skip, 'data': hx(data)})
+    return cases
+
+
+def run_ticks(run, tier, driver_ok):
+    """Validates the cost model behind C18.array_ticks_linear: it is neither blind to work the real code does nor
+    counting work it does not do.  (The quadratic byte copying inside `endswith` is invisible to both counts.)"""
+    cases = tick_cases(tier)
+    if not driver_ok:
+        return
+    out = core.run_driver(['TK {} {} {} {}'.format(c['sep'], c['ws'], c['skip'], c['data']) for c in cases])
+    for case, line in zip(cases, out):
+        run.evaluations += 1
+        run.count('ops', 'tk')
+        run.note_nontrivial(('tk', case['shape'], case['n'], case['sep'], case['ws'], case['skip']))
+        ticks = int(line.split(' ')[1]) if line.startswith('OK ') else -1
+        events = line_events(unhx(case['data']), unhx(case['sep']), unhx(case['ws']), case['skip'])
+        length = len(unhx(case['data']))
+        ok = ticks >= 0 and 2 * ticks - TICK_BETA <= events <= TICK_ALPHA * ticks + TICK_BETA and ticks <= 19 * length + 13
+        if not ok:
+            run.disagreements.append((dict(case, data=case['data'][:64] + '...'), 0,
+                                      'ticks {} (bound {})'.format(ticks, 19 * length + 13), 'line events {}'.format(events)))
+    run.notes.append('cost model: {} shapes x sizes, line events of the real call within [2*ticks-{b}, {a}*ticks+{b}]'.format(
+        len(cases), a=TICK_ALPHA, b=TICK_BETA))
+
+
+ORACLES = {'ta': ArrayOracle, 'tu': UntilOracle, 'tc': CheckOracle, 'tn': NumericOracle, 'ts': StringOracle,
+           'tl': ByLengthOracle}
 
 
 class Dispatch(object):
@@ -461,7 +572,7 @@ def run(run, driver_ok=True, deep=False):
         if c['kind'] == 'ta' and c.get('items'):
             run.sample(c)
             break
-    for kind in ('tu', 'tc', 'tn', 'ts'):
+    for kind in ('tu', 'tc', 'tn', 'ts', 'tl'):
         for c in cases:
             if c['kind'] == kind and len(c['data']) > 6:
                 run.sample(c)
@@ -475,6 +586,7 @@ def run(run, driver_ok=True, deep=False):
             run.evaluations += 1
             for key, message in Dispatch.prop(case):
                 run.finding(key, message, case)
+    run_ticks(run, tier, driver_ok)
 
 
 def search(run, proof):
